@@ -81,13 +81,13 @@ def parse(lexer):
             f"Expected end of input but got '{lexer.next()}'",
             lexer.getPos(),
         )
-    if isinstance(result, NodeReturn):
+    if isinstance(result, NodeReturn) and result.expression:
         result = result.expression
     elif isinstance(result, NodeBlock):
         expressions = result.expressions
         if len(expressions) > 0:
             lastexpr = expressions[-1]
-            if isinstance(lastexpr, NodeReturn):
+            if isinstance(lastexpr, NodeReturn) and lastexpr.expression:
                 expressions[-1] = lastexpr.expression
     return result
 
